@@ -31,7 +31,7 @@ var asconNoteOnce sync.Once
 // data, ciphertext or tag makes Open return (nil, error).
 func TestVerifAscon(t *testing.T) {
 	const mon = "TestVerifAscon"
-	lib.Mandatory("ascon:seal-differential", "ascon:open-roundtrip", "ascon:open-in-place", "ascon:seal-in-place",
+	lib.Mandatory("ascon:tamper-in-place", "ascon:seal-differential", "ascon:open-roundtrip", "ascon:open-in-place", "ascon:seal-in-place",
 		"ascon:dst-prefix-with-capacity", "ascon:dst-prefix-realloc",
 		"ascon:tamper:key", "ascon:tamper:nonce", "ascon:tamper:ad", "ascon:tamper:ct", "ascon:tamper:tag", "ascon:tamper-rejected",
 		"ascon:pt-full-block", "ascon:ad-full-block", "ascon:pt-empty", "ascon:ad-empty", "ascon:full-bit-sweep")
@@ -241,10 +241,18 @@ func asconCase(mon string, m asconMode, key, nonce, ad, pt []byte, r *lib.Rng, s
 		for j := 2; j < cap(dst); j++ {
 			dst[:cap(dst)][j] = 0xC3
 		}
-		useDst := bit%2 == 0
+		useDst := bit%3 == 0
+		inPlace := bit%3 == 1
 		var d []byte
 		if useDst {
 			d = dst
+		}
+		if inPlace {
+			// the documented in-place usage: dst = ciphertext[:0]; the tag to be
+			// checked lies in the very memory the plaintext is written to
+			in = lib.Clone(in)
+			d = in[:0]
+			lib.Count("ascon:tamper-in-place")
 		}
 		out, err, ok := open(cc, d, nn, in, aa, "tampered-"+field)
 		if !ok {
